@@ -5,6 +5,7 @@ Property theorems only.  (`C16_recycling_queries` — which query each recycling
 is in `Props/C18.lean` next to the config model it belongs to.)
 -/
 import DeadpoolVerif.Lemmas.PgPool
+import DeadpoolVerif.Lemmas.SyncPools
 import DeadpoolVerif.Lemmas.Reach
 import DeadpoolVerif.Props.C04
 import DeadpoolVerif.Props.C18
@@ -25,6 +26,17 @@ theorem C16_recycle_decides (closed : Bool) (m : Pg.RecyclingMethod) (r : QueryR
 a rejected one is discarded and replaced (`C04_recycle_failure_discards`) -/
 theorem C16_closed_never_reissued (closed : Bool) (m : Pg.RecyclingMethod) (r : QueryReply)
     (h : closed = true) : (recycle closed m r).2 = false := by simp [recycle, h]
+
+/-- **C16 (never reissued, all histories).** Let `unfit id n` say that client `id` was unfit —
+its connection closed, or its check query failing — by the end of its `n`-th hand-out.  In every
+history of the pool (any interleaving, any outcomes) in which `Manager::recycle` is never
+answered `Ok` for an unfit client — which is what `C16_recycle_decides` says of this manager —
+no hand-out is the `(n+1)`-th hand-out of such a client. -/
+theorem C16_unfit_never_reissued (cfg : Cfg) (unfit : SP.Spoiled) (acts : List Action)
+    (h : SP.Honest unfit (init cfg) acts) (i : Nat) (o : Obj)
+    (ho : Ev.handout i o ∈ (run (init cfg) acts).log) (hn : 1 < o.handouts) :
+    unfit o.id (o.handouts - 1) = false :=
+  ((SP.J.init unfit cfg).run h).log _ ho hn
 
 /-- **C16 (size = number of cached keys).** After any sequence of inserts (the second half of a
 `prepare_typed`, whatever happened between its lookup and its insert), removes and clears — i.e.
